@@ -4,7 +4,8 @@ import Pog.Gen.Loader
 /-
   M-loader: what happens INSIDE one operation of `parse_operations` once its id is known.
 
-    core/loader/operations/parser.py:93-142     path-level + operation-level parameters, `requestBody`, the `responses` loop
+    core/loader/operations/parser.py:93-154     path-level + operation-level parameters (the operation-level one overrides a path-level
+                                                one with the same name and location - `mergeParams`), `requestBody`, the `responses` loop
                                                 with its three cases (`$ref` to `#/components/responses/…` incl. the
                                                 `raw_responses.get(ref_name, {}) or rn_node` fallback, `$ref` to a schema, inline)
     core/loader/parameters/parser.py            `resolve_parameter_node_if_ref`, `parse_parameter`
@@ -361,7 +362,7 @@ def parseBody (orc : Oracle) (tbl : List (Str × JsonV)) (opId : Str) (rb : Json
     | v => .error (.noAttr (pyTypeName v) "get".toList)
   | _ => .error .rbNotMapping
 
-/-! ### responses (operations/parser.py:117-142, responses/parser.py) -/
+/-! ### responses (operations/parser.py:126-154, responses/parser.py) -/
 
 /-- `f"{operation_id_for_promo}{code}Response"` -/
 def respPromoName (opId code : Str) : Str := opId ++ code ++ "Response".toList
@@ -371,7 +372,7 @@ def schemaRefResponse (r : Str) : JsonV :=
   .obj [("description".toList, .str ("Response with ".toList ++ lastSeg r ++ " schema".toList)),
         ("content".toList, .obj [("application/json".toList, .obj [("schema".toList, .obj [("$ref".toList, .str r)])])])]
 
-/-- `resp_node_resolved` of operations/parser.py:120-141 -/
+/-- `resp_node_resolved` of operations/parser.py:131-153 -/
 def resolveResponse (tbl : List (Str × JsonV)) (rn : JsonV) : JsonV :=
   match rn with
   | .obj kvs =>
@@ -495,7 +496,45 @@ def parseBodyOpt (orc : Oracle) (tbl : List (Str × JsonV)) (opId : Str) :
   | none => .ok (none, [])
   | some rb => parseBody orc tbl opId rb
 
-/-- operations/parser.py:93-142 for one operation node. -/
+/-! ### Python `==` on nodes, and the override of path-level parameters -/
+
+mutual
+/-- Python `==` on JSON-shaped values (`IRParameter.name` / `.param_in` are copied verbatim from the node, so they can be any
+    of them): `True == 1`, lists element-wise, dicts as MAPPINGS (same length, every key of the left one is a key of the
+    right one with an equal value: key order is irrelevant; a `dict` has no repeated key). -/
+def pyEqJ : JsonV → JsonV → Bool
+  | .null, .null => true
+  | .bool a, .bool b => a == b
+  | .bool a, .int n => n == (if a then 1 else 0)
+  | .int n, .bool a => n == (if a then 1 else 0)
+  | .int a, .int b => a == b
+  | .str a, .str b => a == b
+  | .arr a, .arr b => pyEqList a b
+  | .obj a, .obj b => a.length == b.length && pyEqKvs a b
+  | _, _ => false
+def pyEqList : List JsonV → List JsonV → Bool
+  | [], [] => true
+  | x :: xs, y :: ys => pyEqJ x y && pyEqList xs ys
+  | _, _ => false
+def pyEqKvs : List (Str × JsonV) → List (Str × JsonV) → Bool
+  | [], _ => true
+  | (k, x) :: xs, b =>
+    (match aget b k with
+     | some y => pyEqJ x y
+     | none => false) && pyEqKvs xs b
+end
+
+/-- `bp.name == p.name and bp.param_in == p.param_in` -/
+def sameParamKey (a b : IRParam) : Bool := pyEqJ a.name b.name && pyEqJ a.pin b.pin
+
+/-- operations/parser.py (F4 repaired): `[bp for bp in base_params if not any(<same name and location> for p in op_params)]
+    + op_params` - an operation-level parameter OVERRIDES the path-level one with the same (name, in); both lists keep
+    their order.  (Both lists are PARSED first: the `_parse_schema` calls / enum registrations of an overridden
+    path-level parameter still happen.) -/
+def mergeParams (base own : List IRParam) : List IRParam :=
+  base.filter (fun bp => !own.any (fun p => sameParamKey bp p)) ++ own
+
+/-- operations/parser.py:93-154 for one operation node. -/
 def parseOp (u : UInfo) (orc : Oracle) (c : Comps) (i : OpIn) : Except Err OpOut :=
   match parseParams orc c.parameters i.opId i.pathParams with
   | .error e => .error e
@@ -508,7 +547,7 @@ def parseOp (u : UInfo) (orc : Oracle) (c : Comps) (i : OpIn) : Except Err OpOut
       | .ok (body, ev3) =>
         match parseResponses u orc c.responses i.opId (normResponses i.responses) with
         | .error e => .error e
-        | .ok (resps, ev4) => .ok ⟨base ++ own, body, resps, ev1 ++ ev2 ++ ev3 ++ ev4⟩
+        | .ok (resps, ev4) => .ok ⟨mergeParams base own, body, resps, ev1 ++ ev2 ++ ev3 ++ ev4⟩
 
 /-! ### `post_process_operation` -/
 
